@@ -127,7 +127,7 @@ def run(chk):
     broken = chk.proof_obligations(["Corr/Gen.vo"])
     chk.coverage["rule"] = (
         "schemas with several protocols and services; every generator (dbc, can_c, cpp, nop) is run in fresh interpreters under different "
-        "PYTHONHASHSEEDs, after unrelated parse/generate calls in the same process, after parsing and generating from another schema that declares the same type names with other definitions, and twice on the same parsed schema object; the {path: contents} "
+        "PYTHONHASHSEEDs, after unrelated parse/generate calls in the same process, after parsing and generating from another schema that declares the same type names with other definitions, twice on the same parsed schema object, and after every other generator has run on that same object; the {path: contents} "
         "maps must be identical apart from the documented '// Generated using fcp ... on ...' stamp line; the C++ generator's file set is compared "
         "in Coq with the model; non-trivial = >= 2 protocols or a service; distinct = (schema, generator, configuration)")
     work = common.scratch_dir("verif_c17_")
@@ -149,7 +149,7 @@ def run(chk):
                 f.write(prev_text)
             protos = [i.protocol for i in fcp.impls]
             for name in ("dbc", "can_c", "cpp", "nop"):
-                confs = [("none", s) for s in chk.rng.sample(range(1, 10000), nseeds)] + [("busy", 7), ("twice", 11), ("busy", 4242), ("after:" + prev, 5), ("after:" + prev, 977)]
+                confs = [("none", s) for s in chk.rng.sample(range(1, 10000), nseeds)] + [("busy", 7), ("twice", 11), ("busy", 4242), ("after:" + prev, 5), ("after:" + prev, 977), ("others-first", 3), ("others-first", 4711)]
                 for ci, (hist, seed) in enumerate(confs):
                     jobs.append((path, name, f"{work}/o{k}_{name}_{ci}", hist, seed))
                     index.append((k, text, name, hist, seed, protos, [s.name for s in fcp.services]))
